@@ -130,6 +130,8 @@ def add_edges(spec, rnd, uniform):
         tg, to, tv = rnd.choice(tgts)
         S, T = group[sg], group[tg]
         pattern = rnd.choice(['all', 'one_each', 'dense', 'sparse', 'k_each', 'perm', 'perm'])
+        if len(T) >= 10 and rnd.random() < 0.5:
+            pattern = 'perm'      # wide groups: one-to-one wiring takes the index-based edge form (density <= 0.1)
         pairs = []
         if pattern == 'perm':
             # one-to-one wiring (ring / permutation): every target receives exactly one edge; listing order of the edges is
